@@ -605,16 +605,20 @@ class Bromelia:
         except threading.BrokenBarrierError:
             self.send_threshold.reset()
 
-        worker.set_outgoing_message(msg)
-        bromelia_logger.debug(f"{logging_info} Just put message into "\
-                              f"send_queue Queue and notified send_event Event")
-
+        p_answer = None
         if msg.header.is_request() and recv_answer:
+            #: Registered before the request is handed over: its answer may 
+            #: be dispatched as soon as the request is in the send_queue.
             p_answer = PendingAnswer(msg)
 
             worker.insert_pending_answer(p_answer)
             bromelia_logger.debug(f"{logging_info} Added Pending answer")
 
+        worker.set_outgoing_message(msg)
+        bromelia_logger.debug(f"{logging_info} Just put message into "\
+                              f"send_queue Queue and notified send_event Event")
+
+        if p_answer is not None:
             p_answer.wait()
             bromelia_logger.debug(f"{logging_info} Notification from "\
                                   f"Pending answer")
